@@ -31,6 +31,7 @@ def run(chk):
     chk.attempt(r15j, chk)
     chk.attempt(r15k, chk)
     chk.attempt(r15l, chk)
+    chk.attempt(r15n, chk)
 
 
 def _is_filtered(e):
@@ -612,3 +613,31 @@ def r15l(chk, rid='R15.l'):
     except _Raise as e:
         got = e
     chk.ob(rid, UTIL, '_Namespaces.__getitem__', 'an unknown prefix is reported as NamespaceErr', errors == ['NamespaceErr'], f'gives {got!r}, reports {errors}')
+
+
+def r15n(chk, rid='R15.n'):
+    chk.rule(rid, 'a selector attached to a sheet resolves its prefixes against the sheet and nothing else, decided by evaluation: Selector._setSelectorText '
+                  '(with the real parse loop and the New productions, evaluated from the source) is run for a selector whose list sits in a rule of a model sheet, with '
+                  'a (text, namespaces) pair as input: a prefix the sheet does not declare is refused (nothing committed, NamespaceErr reported) whatever the pair '
+                  'offers - also when the sheet declares nothing at all, where its mapping is empty and therefore falsy -, a prefix the sheet declares resolves to '
+                  'the sheet\'s URI, and a detached selector resolves against the pair')
+    from .c16b import eval_selector
+
+    SELF = 'cssutils/css/selector.py'
+    cases = [
+        # (text, given, sheet, committed?, (uri, name) of the element)
+        ('a|x', {'a': 'U1'}, {}, False, None),
+        ('a|x', {'a': 'U1'}, {'b': 'U2'}, False, None),
+        ('[a|t]', {'a': 'U1'}, {}, False, None),
+        ('b|x', {'b': 'U1'}, {'b': 'U2'}, True, ('U2', 'x')),
+        ('b|x', {}, {'b': 'U2'}, True, ('U2', 'x')),
+        ('x', {'a': 'U1'}, {}, True, None),
+        ('a|x', {'a': 'U1'}, None, True, ('U1', 'x')),
+    ]
+    for text_, given, sheet, want_commit, want_el in cases:
+        errors = []
+        r = eval_selector(chk, text_, namespaces=given, log_errors=errors, sheet_namespaces=sheet)
+        where = 'detached' if sheet is None else f'attached to a sheet declaring {sheet or "nothing"}'
+        ok = r['committed'] == want_commit and (want_commit or bool(errors)) and (want_el is None or tuple(r['element'] or ()) == want_el)
+        chk.ob(rid, SELF, 'Selector._setSelectorText', f'{text_} with the pair {given}, {where}: ' + ('accepted' + (f' as {want_el}' if want_el else '') if want_commit else 'refused'), ok,
+               f'committed={r["committed"]} element={r["element"]!r} errors={errors[:1]}: the sheet would hold a selector whose namespace it does not declare and write it as |name')
